@@ -13,7 +13,7 @@ from ..core import Disc, Subcheck, exc_detail, exc_key
 
 PROPERTY_ID = 'C07'
 LEVEL = 'exploration'
-RULE = ('lines: sequences of server lines over an abstract alphabet (REJECTED with/without list, OK with hex / non-hex / '
+RULE = ('Reference-server keyrings vary: wanted line last / inside, with / without final newline, directory mode 0700 / 02700 / 01700 / 0500. lines: sequences of server lines over an abstract alphabet (REJECTED with/without list, OK with hex / non-hex / '
         'no GUID, DATA hex / junk / empty, ERROR, AGREE_UNIX_FD, unknown word, empty line; non-UTF-8 and ERROR text in '
         'random ones), exhaustive to length 4 (quick) / 5 (thorough) x {UNIX, non-UNIX transport double}, random to '
         'length 30, fed line-per-read and again under a second splitting that must give the identical transcript; '
@@ -313,6 +313,10 @@ def random_lines(draw, tier):
 class RefServer:
     """Deterministic, spec-following authentication server (actor)."""
 
+    def keyring_mode(self):
+        return [0o700, 0o2700, 0o1700, 0o500][(len(self.accept) + (self.neg_answer == b'ERROR') +
+                                                 2 * (self.external_style == 'data')) % 4]
+
     def __init__(self, accept, neg_answer, keyring, nonce, external_style, cookie_mode='ok'):
         self.cookie_mode = cookie_mode          # 'ok' | 'unknown-id' (challenge names a cookie the keyring lacks) | 'no-keyring'
         self.accept = set(accept)
@@ -372,6 +376,9 @@ class RefServer:
                                 lines.append(b'12000 ' + now + b' ' + b'cd' * 24)     # the wanted line is not the last one
                             # a file is a sequence of lines; whether the last one ends in a newline is up to whoever wrote it
                             f.write(b'\n'.join(lines) + (b'' if self.neg_answer == b'ERROR' else b'\n'))
+                        # the directory is private (nothing for group or others) - which leaves the owner's bits and the
+                        # special bits free: set-group-ID (inherited below a setgid parent), sticky, owner read-only
+                        os.chmod(self.keyring, self.keyring_mode())
                     self.challenge = binascii.hexlify(hashlib.sha1(b'chal' + self.nonce).digest())
                     self.state, self.mech = 'WFD', mech
                     cid = b'12' if self.cookie_mode == 'unknown-id' else b'11'
@@ -542,6 +549,9 @@ def classify_handshake(case):
                   'cookie_' + case.get('cookie', 'ok')] + (
         ['keyring_' + ('wanted_line_inside' if case['external'] == 'data' else 'wanted_line_last') +
          ('_no_final_newline' if case['neg'] == 'ERROR' else '')]
+        if 'DBUS_COOKIE_SHA1' in case['accept'] and case.get('cookie', 'ok') != 'no-keyring' else []) + (
+        ['keyring_dir_mode_%o' % [0o700, 0o2700, 0o1700, 0o500][(len(set(case['accept'])) + (case['neg'] == 'ERROR') +
+                                                                 2 * (case['external'] == 'data')) % 4]]
         if 'DBUS_COOKIE_SHA1' in case['accept'] and case.get('cookie', 'ok') != 'no-keyring' else [])
 
 
